@@ -673,8 +673,14 @@ impl<'s> Semantics<'s> {
             let (head_index, rhs) = {
                 let head_block = control_flow_graph.new_block()?;
 
-                // get started
-                let rhs = self.operand_load(head_block, &detail.operands[1])?;
+                // get started. With both an operand-size override and REX.W, REX.W wins:
+                // capstone still reports a 16-bit memory source next to the 64-bit
+                // destination, so the source is loaded at the destination's size.
+                let mut source = detail.operands[1];
+                if source.type_ == x86_op_type::X86_OP_MEM {
+                    source.size = detail.operands[0].size;
+                }
+                let rhs = self.operand_load(head_block, &source)?;
 
                 (head_block.index(), rhs)
             };
@@ -780,8 +786,14 @@ impl<'s> Semantics<'s> {
             let (head_index, rhs) = {
                 let head_block = control_flow_graph.new_block()?;
 
-                // get started
-                let rhs = self.operand_load(head_block, &detail.operands[1])?;
+                // get started. With both an operand-size override and REX.W, REX.W wins:
+                // capstone still reports a 16-bit memory source next to the 64-bit
+                // destination, so the source is loaded at the destination's size.
+                let mut source = detail.operands[1];
+                if source.type_ == x86_op_type::X86_OP_MEM {
+                    source.size = detail.operands[0].size;
+                }
+                let rhs = self.operand_load(head_block, &source)?;
 
                 (head_block.index(), rhs)
             };
